@@ -13,6 +13,13 @@
 //	req  {res, b:[h,l], id, dt}   one api.Entry(WithBatchCount(b)); an admitted entry stays open under handle id;
 //	                              dt (optional) ms the clock advances before the call
 //	exit {id, dt}                 Exit of the entry with handle id
+//	reload {via, r, rules:[{res, N:[h,l], mt}], dt}
+//	                              a rule list pushed in the middle of the trace (entries may be in flight): via = all ->
+//	                              isolation.LoadRules(rules), res -> LoadRulesOfResource(r, rules), clear ->
+//	                              ClearRulesOfResource(r), clearall -> ClearRules().  Rules are pushed RAW: N may be 0, mt may
+//	                              be a metric type other than Concurrency, res 0 = a rule without resource name.  Recorded:
+//	                              the raw list, whether an error came back, per resource the thresholds
+//	                              GetRulesOfResource reports and the gauge.  The driver does not decide which rules are valid.
 //	conc {res, bs, sched}         len(bs) gated goroutines call api.Entry (small batches) in the interleaving
 //	                              `sched`, parking only at the yield point "chain.checked"; all admitted entries
 //	                              are exited afterwards
@@ -64,6 +71,7 @@ type outcome struct {
 	ok    bool
 	bt    string
 	rule  int64
+	rn    []int64
 	val   []int64
 	entry *base.SentinelEntry
 }
@@ -93,8 +101,12 @@ func entry(name string, b uint32) (o outcome) {
 		if n, err := strconv.ParseInt(ir.ID, 10, 64); err == nil {
 			o.rule = n
 		}
+		o.rn = limbs(ir.Threshold)
 	}
 	o.val = []int64{-1, -1}
+	if o.rn == nil {
+		o.rn = []int64{-1, -1}
+	}
 	switch v := berr.TriggeredValue().(type) {
 	case uint32:
 		o.val = limbs(v)
@@ -127,7 +139,7 @@ func main() {
 	hx.InitSentinel()
 	tr := hx.NewTrace(os.Args[2])
 	defer tr.Close()
-	var cur int64
+	var cur, nres int64
 	open := map[int64]*base.SentinelEntry{}
 	resOf := map[int64]int64{}
 	name := func(res int64) string { return fmt.Sprintf("c04_%d_r%d", cur, res) }
@@ -164,7 +176,54 @@ func main() {
 			if got := len(isolation.GetRules()); got != len(rules) {
 				hx.Fatal("trace %d: %d of %d rules in force", cur, got, len(rules))
 			}
-			tr.Emit(hx.M{"op": "new", "tr": cur, "nres": hx.Int(s, "nres"), "rules": out})
+			nres = hx.Int(s, "nres")
+			tr.Emit(hx.M{"op": "new", "tr": cur, "nres": nres, "rules": out})
+		case "reload":
+			via, r := hx.Str(s, "via"), hx.Int(s, "r")
+			rules := []*isolation.Rule{}
+			raw := []hx.M{}
+			for i, x := range list(s, "rules") {
+				m := x.(map[string]interface{})
+				res, n, mt := hx.Int(m, "res"), u32(m, "N"), hx.Int(m, "mt")
+				rn := ""
+				if res != 0 {
+					rn = name(res)
+				}
+				rules = append(rules, &isolation.Rule{ID: strconv.Itoa(i + 1), Resource: rn,
+					MetricType: isolation.MetricType(mt), Threshold: n})
+				raw = append(raw, hx.M{"res": res, "N": limbs(n), "mt": mt})
+			}
+			var lerr error
+			func() {
+				defer func() {
+					if e := recover(); e != nil {
+						lerr = fmt.Errorf("panic: %v", e)
+					}
+				}()
+				switch via {
+				case "all":
+					_, lerr = isolation.LoadRules(rules)
+				case "res":
+					_, lerr = isolation.LoadRulesOfResource(name(r), rules)
+				case "clear":
+					lerr = isolation.ClearRulesOfResource(name(r))
+				case "clearall":
+					lerr = isolation.ClearRules()
+				default:
+					hx.Fatal("unknown reload via %q", via)
+				}
+			}()
+			got := [][][]int64{}
+			concs := []int64{}
+			for res := int64(1); res <= nres; res++ {
+				ths := [][]int64{}
+				for _, ru := range isolation.GetRulesOfResource(name(res)) {
+					ths = append(ths, limbs(ru.Threshold))
+				}
+				got = append(got, ths)
+				concs = append(concs, conc(name(res)))
+			}
+			tr.Emit(hx.M{"op": "reload", "via": via, "r": r, "rules": raw, "err": lerr != nil, "got": got, "conc": concs})
 		case "req":
 			res, b, id := hx.Int(s, "res"), u32(s, "b"), hx.Int(s, "id")
 			entryOpts = nil
@@ -180,7 +239,7 @@ func main() {
 			if o.ok {
 				open[id], resOf[id] = o.entry, res
 			} else {
-				rec["bt"], rec["rule"], rec["val"] = o.bt, o.rule, o.val
+				rec["bt"], rec["rule"], rec["rN"], rec["val"] = o.bt, o.rule, o.rn, o.val
 			}
 			rec["conc"] = conc(name(res))
 			tr.Emit(rec)
